@@ -28,6 +28,7 @@ META = {
 
 
 META['explanation'] += ' Rounds 4-5: ' + 'R1 also: X12Reader.cleanup looks at the type of every open envelope (no iteration ends before the dispatch).'
+META['explanation'] += ' After round 6: R6 trailer checks and R7 header bookkeeping of the reader are decided by constant propagation over stack shape x control number x declared count (R6) and header x reused/fresh control number (R7).'
 
 HEADERS = {'ISA': ('ISA13', 'isa_ids', None, 'gs_count'),      # ctrl element, seen list, reset of seen list at, counter reset here
            'GS': ('GS06', 'gs_ids', 'ISA', 'st_count'),
@@ -503,6 +504,149 @@ def r4_pending_errors_kept(ctx):
         raise AnalysisError('x12file: stores to self.err_list not found')
 
 
+class _SegM(object):
+    _sa_model = True
+
+    def __init__(self, sid, vals, n=16):
+        self.sid, self.vals, self.n = sid, vals, n
+
+    def get_seg_id(self):
+        return self.sid
+
+    def get_value(self, r):
+        return self.vals.get(r)
+
+    def is_empty(self):
+        return False
+
+    def is_seg_id_valid(self):
+        return True
+
+    def __len__(self):
+        return self.n
+
+    def __hash__(self):
+        return hash((self.sid, tuple(sorted(self.vals.items()))))
+
+
+def r7_header_semantics(ctx):
+    """what the shared bookkeeping does at a header, decided by constant propagation through X12Base._parse_segment: ISA,
+    GS and ST push their envelope with its own control number, report a control number already used in the enclosing
+    scope (and only then), and start the counters of the level below (a GS counts one more group and starts the set
+    count and the set ids afresh, and so on); any other segment counts once towards the segment count."""
+    from ..absint import traces, NotClosedTest
+    fn = ctx.func('x12file', 'X12Base._parse_segment')
+    g = ctx.cfg(fn)
+    base = {'self.loops': (('ISA', 'i0'),), 'self.isa_ids': ('i0',), 'self.gs_ids': ('g0',), 'self.st_ids': ('s0',), 'self.gs_count': 2, 'self.st_count': 3,
+            'self.seg_count': 7, 'self.hl_count': 2, 'self.hl_stack': (1, 2), 'self.lx_count': 1, 'self.cur_line': 10, 'self.check_837_lx': False,
+            'self.err_list': ()}
+    CASES = []
+    for dup in (False, True):
+        CASES.append(('ISA', {'ISA13': 'i0' if dup else 'i9', 'ISA15': 'P'}, ('_isa_error', '025') if dup else None,
+                      {'self.loops': base['self.loops'] + (('ISA', 'i0' if dup else 'i9'),), 'self.gs_count': 0, 'self.gs_ids': (),
+                       'self.isa_ids': ('i0', 'i0' if dup else 'i9'), 'self.seg_count': 7}))
+        CASES.append(('GS', {'GS06': 'g0' if dup else 'g9'}, ('_gs_error', '6') if dup else None,
+                      {'self.loops': base['self.loops'] + (('GS', 'g0' if dup else 'g9'),), 'self.gs_count': 3, 'self.st_count': 0, 'self.st_ids': (),
+                       'self.gs_ids': ('g0', 'g0' if dup else 'g9'), 'self.seg_count': 7}))
+        CASES.append(('ST', {'ST02': 's0' if dup else 's9'}, ('_st_error', '23') if dup else None,
+                      {'self.loops': base['self.loops'] + (('ST', 's0' if dup else 's9'),), 'self.st_count': 4, 'self.seg_count': 1, 'self.hl_count': 0,
+                       'self.hl_stack': (), 'self.st_ids': ('s0', 's0' if dup else 's9')}))
+    CASES.append(('NM1', {}, None, {'self.seg_count': 8, 'self.loops': base['self.loops'], 'self.gs_count': 2, 'self.st_count': 3}))
+    CASES.append(('SE', {}, None, {'self.seg_count': 7, 'self.loops': base['self.loops']}))
+    bad = []
+    for sid, vals, want_err, want_state in CASES:
+        env = dict(base)
+        env['seg_data'] = _SegM(sid, vals)
+
+        def key(c):
+            r, m = A.call_target(c)
+            return m if r == 'self' and m in ('_isa_error', '_gs_error', '_st_error', '_seg_error') else None
+        try:
+            res = traces(g, env, key, funcs={'self._int': lambda x: int(x) if x not in (None, '') and str(x).isdigit() else None})
+        except NotClosedTest as e:
+            raise AnalysisError('X12Base._parse_segment[%s] cannot be decided: %s' % (sid, e))
+        for tr, e_ in res:
+            got = {(a_[0], a_[1][0] if a_[1] else None) for a_ in tr}
+            fin = dict(e_)
+            diffs = [(k, fin.get(k), v) for k, v in want_state.items() if fin.get(k) != v]
+            if got != ({want_err} if want_err else set()) or diffs:
+                bad.append('%s %s: reports %s (expected %s)%s' % (sid, vals, sorted(got), want_err,
+                                                                  ''.join('; %s becomes %r, expected %r' % d for d in diffs[:2])))
+    yield Ob('x12file:X12Base._parse_segment headers push, report reuse and start the counters below; other segments count once', not bad, ctx.floc(fn),
+             '' if not bad else bad[0], note='%d cases' % len(CASES))
+
+
+def r6_trailer_semantics(ctx):
+    """what the reader reports at a trailer, decided by constant propagation through X12Reader._parse_segment for SE, GE and
+    IEA over: the stack of open envelopes (well nested, a level left open, nothing open), a control number that does or
+    does not match, a declared count that is right, off by one, blank or not a number.  Expected: no error exactly when
+    the trailer closes the envelope on top of the stack with its own control number and the true count; otherwise the
+    code of the discrepancy at the trailer's level; the closed envelope (and one left open above it) leaves the stack."""
+    from ..absint import traces, NotClosedTest
+    import itertools as _it
+    fn = ctx.func('x12file', 'X12Reader._parse_segment')
+    g = ctx.cfg(fn)
+    SPEC = {'SE': ('ST', 'st', 'seg_count', 1, {'open': None, 'none': '3', 'id': '3', 'count': '4'}),
+            'GE': ('GS', 'gs', 'st_count', 0, {'open': '3', 'none': '4', 'id': '4', 'count': '5'}),
+            'IEA': ('ISA', 'isa', 'gs_count', 0, {'open': '024', 'none': '024', 'id': '001', 'count': '021'})}
+
+    def _int(x):
+        try:
+            return int(x)
+        except (ValueError, TypeError):
+            return None
+    for sid, (hdr, lvl, counter, plus, codes) in SPEC.items():
+        full = (('ISA', 'i1'), ('GS', 'g1'), ('ST', 's1'))
+        depth = {'ST': 3, 'GS': 2, 'ISA': 1}[hdr]
+        nested = full[:depth]
+        stacks = {'nested': nested, 'none': (), 'open': full[:depth + 1] if depth < 3 else None}
+        bad = []
+        runs = 0
+        for sname, stack in stacks.items():
+            if stack is None:
+                continue
+            for idok, cnt in _it.product((True, False, None), ('ok', 'off', 'blank', 'text')):
+                true = 4 + plus
+                own_id = dict(nested)[hdr] if True else None
+                decl = {'ok': str(true), 'off': str(true + 1), 'blank': '', 'text': 'X'}[cnt]
+                vals = {sid + '01': decl, sid + '02': own_id if idok else ('zz' if idok is False else '')}
+                seg = A.Model('seg', get_seg_id=lambda sid=sid: sid, get_value=lambda r, vals=vals: vals.get(r))
+                env = {'seg_data': seg, 'self.loops': stack, 'self.' + counter: 4, 'self.seg_count': 4, 'self.st_count': 4, 'self.gs_count': 4,
+                       'seg_id': sid}
+                funcs = {'X12Base._parse_segment': lambda *a_: None, 'self._int': _int}
+
+                def key(c):
+                    r, m = A.call_target(c)
+                    return m if r == 'self' and m in ('_isa_error', '_gs_error', '_st_error', '_seg_error') else None
+                try:
+                    res = traces(g, env, key, funcs=funcs)
+                except NotClosedTest as e:
+                    raise AnalysisError('X12Reader._parse_segment[%s] cannot be decided (stack %s): %s' % (sid, [t for t, _ in stack], e))
+                runs += 1
+                want = set()
+                rest = list(stack)
+                if sid != 'SE' and rest and rest[-1][0] != hdr:
+                    want.add(('_%s_error' % lvl, codes['open']))
+                    rest.pop()
+                if not rest:
+                    want.add(('_%s_error' % lvl, codes['none']))
+                else:
+                    if (sid == 'SE' and rest[-1][0] != hdr) or rest[-1][1] != vals[sid + '02']:
+                        want.add(('_%s_error' % lvl, codes['id']))
+                    if _int(decl) != true:
+                        want.add(('_%s_error' % lvl, codes['count']))
+                    rest.pop()
+                for tr, e_ in res:
+                    got = {(a_[0], a_[1][0] if a_[1] else None) for a_ in tr}
+                    left = dict(e_).get('self.loops')
+                    if (got != want or left != tuple(rest)) and len(bad) < 3:
+                        bad.append('%s with %s open, control number %s, declared count %r (true %d): reports %s, stack left %s; expected %s, %s' % (
+                            sid, [t for t, _ in stack] or 'nothing', 'matching' if idok else ('different' if idok is False else 'blank'), decl, true, sorted(got),
+                            [t for t, _ in (left or ())], sorted(want), [t for t, _ in rest]))
+        yield Ob('x12file:X12Reader._parse_segment[%s] reports exactly the discrepancies of the trailer' % sid, not bad, ctx.floc(fn),
+                 '' if not bad else bad[0], note='%d combinations' % runs)
+
+
 def r5_shared_tokenizer(ctx):
     """an envelope segment that the tokenizer hands over damaged (a line break glued to its id at a buffer boundary) is not recognised as a trailer: C01.R3 / R5 (shared)"""
     from . import c01
@@ -515,6 +659,8 @@ RULES = [
     Rule('C04.R1', 'header/trailer compare-reset wiring derived from the branch labels of _parse_segment', r1_wiring, floor=37),
     Rule('C04.R2', 'top-of-stack reads/deletes/pops of emptiable lists hold NonEmpty (typestate on the CFG)', r2_stack_safety, floor=13),
     Rule('C04.R3', '_int is total over str|None; no bare int() on run-time values in x12file', r3_int_total, floor=1),
+    Rule('C04.R7', 'header bookkeeping decided by constant propagation: push, control-number reuse, counters of the level below', r7_header_semantics, floor=1),
+    Rule('C04.R6', 'trailer checks decided by constant propagation: stack shape x control number x declared count', r6_trailer_semantics, floor=2),
     Rule('C04.R5', 'shared with C01.R3/R5: no segment is damaged or lost at a buffer boundary', r5_shared_tokenizer, floor=6),
     Rule('C04.R4', 'pending reader errors are only removed by pop_errors, never per segment', r4_pending_errors_kept, floor=2),
 ]
